@@ -73,7 +73,7 @@ def ref_prop_single(segments, one_is_b=True):
 
 
 SCENARIOS = {
-    "C11": ["rabi", "zero_drive", "bit_order", "detection_errors", "sampling_dist", "v2_duration", "v2_duration"],
+    "C11": ["rabi", "zero_drive", "bit_order", "detection_errors", "sampling_dist", "v2_duration", "v2_duration", "state_prep"],
     "C07": ["ramsey"],
     "C15": ["drift"],
 }
@@ -296,6 +296,38 @@ def run_det(p, stats):
     return []
 
 
+def gen_prep(rng):
+    return {"basis": G.pick(rng, ["ground-rydberg", "digital"]), "omega": round(rng.uniform(2.0, 10.0), 3), "duration": rng.randint(40, 400), "eta": G.pick(rng, [0.1, 0.3, 0.6]), "epsilon": G.pick(rng, [0.0, 0.05]), "epsilon_prime": G.pick(rng, [0.0, 0.1]), "runs": 150, "np_seed": rng.getrandbits(31)}
+
+
+def run_prep(p, stats):
+    """SPAM with a state-preparation error eta: a badly prepared atom does not
+    take part in the dynamics and is measured as 0 (up to false positives)."""
+    from pulser import Pulse
+    from pulser_simulation import QutipEmulator, SimConfig
+    from scipy.stats import binom
+
+    seq, ids = _seq(p["basis"])
+    seq.declare_channel("ch", BASIS_CH[p["basis"]][0])
+    seq.add(Pulse.ConstantPulse(p["duration"], p["omega"], 0.0, 0.0), "ch")
+    seq.measure(p["basis"])
+    np.random.seed(p["np_seed"])
+    emu = QutipEmulator.from_sequence(seq, config=SimConfig(noise="SPAM", eta=p["eta"], epsilon=p["epsilon"], epsilon_prime=p["epsilon_prime"], runs=p["runs"], samples_per_run=1))
+    res = emu.run()
+    freq1 = float(res.results[-1].get("1", 0.0))
+    shots = int(res.n_measures)
+    k1 = int(round(freq1 * shots))
+    p1 = math.sin(p["omega"] * p["duration"] * 1e-3 / 2) ** 2
+    good = p1 * (1 - p["epsilon_prime"]) + (1 - p1) * p["epsilon"]
+    pm = (1 - p["eta"]) * good + p["eta"] * p["epsilon"]
+    pval = min(binom.cdf(k1, shots, pm), binom.sf(k1 - 1, shots, pm))
+    stats["sim_ns"] += p["duration"] * p["runs"]
+    stats["probe/state_preparation_errors"] += 1
+    if pval < 1e-9:
+        return [("C11/state-preparation-errors", f"eta={p['eta']}, epsilon={p['epsilon']}, epsilon'={p['epsilon_prime']}, P(1 | prepared)={p1:.4f}: measured 1 in {k1} of {shots} runs, expected rate {pm:.4f} (binomial tail {pval:.2e})")]
+    return []
+
+
 def gen_dist(rng):
     return {"basis": G.pick(rng, ["ground-rydberg", "digital", "XY"]), "n": rng.randint(1, 3), "omega": round(rng.uniform(2.0, 10.0), 3), "duration": rng.randint(40, 300)}
 
@@ -432,5 +464,5 @@ def run_drift(p, stats):
     return []
 
 
-GEN = {"v2_duration": gen_v2dur, "rabi": gen_rabi, "zero_drive": gen_zero, "bit_order": gen_bits, "detection_errors": gen_det, "sampling_dist": gen_dist, "ramsey": gen_ramsey, "drift": gen_drift}
-RUN = {"v2_duration": run_v2dur, "rabi": run_rabi, "zero_drive": run_zero, "bit_order": run_bits, "detection_errors": run_det, "sampling_dist": run_dist, "ramsey": run_ramsey, "drift": run_drift}
+GEN = {"state_prep": gen_prep, "v2_duration": gen_v2dur, "rabi": gen_rabi, "zero_drive": gen_zero, "bit_order": gen_bits, "detection_errors": gen_det, "sampling_dist": gen_dist, "ramsey": gen_ramsey, "drift": gen_drift}
+RUN = {"state_prep": run_prep, "v2_duration": run_v2dur, "rabi": run_rabi, "zero_drive": run_zero, "bit_order": run_bits, "detection_errors": run_det, "sampling_dist": run_dist, "ramsey": run_ramsey, "drift": run_drift}
